@@ -155,6 +155,80 @@ pub fn run_case(c: &Sexp) -> Sexp {
                 ])
             })
         }
+        // (so-history #schema-json (w VALUE sink-ok01)...) ->
+        //   (obs SCHEMA #expected-header (emitted #msg (ok VALUE #rest)|(err)) | (err) ...)
+        "so-history" => {
+            use apache_avro::{GenericSingleObjectReader, GenericSingleObjectWriter};
+            let schema = match parse_schema(&a[0]) {
+                Ok(s) => s,
+                Err(e) => return e,
+            };
+            guarded(|| {
+                let mut w = match GenericSingleObjectWriter::new_with_capacity(&schema, 64) {
+                    Ok(w) => w,
+                    Err(_) => return Sexp::tag("writer-err", vec![]),
+                };
+                let r = match GenericSingleObjectReader::builder().schema(schema.clone()).build() {
+                    Ok(r) => r,
+                    Err(_) => return Sexp::tag("reader-err", vec![]),
+                };
+                let hdr = {
+                    use apache_avro::headers::{HeaderBuilder, RabinFingerprintHeader};
+                    RabinFingerprintHeader::from_schema(&schema).build_header()
+                };
+                let mut out = vec![schema_to_sexp(&schema), Sexp::hex(&hdr)];
+                for op in &a[1..] {
+                    let Some((_, p)) = op.tagged() else { return bad("op") };
+                    let value = match sexp_to_value(&p[0]) {
+                        Ok(v) => v,
+                        Err(e) => return bad(&e),
+                    };
+                    let sink_ok = p[1].as_i64().unwrap_or(1) != 0;
+                    let res = if sink_ok {
+                        let mut sink: Vec<u8> = Vec::new();
+                        w.write_value_ref(&value, &mut sink).map(|n| (n, sink))
+                    } else {
+                        let mut sink = crate::sinks::FailingSink::new(0);
+                        w.write_value_ref(&value, &mut sink).map(|n| (n, vec![]))
+                    };
+                    match res {
+                        Ok((n, sink)) => {
+                            let mut slice = &sink[..];
+                            let rd = match r.read_value(&mut slice) {
+                                Ok(v) => ok(vec![value_to_sexp(&v), Sexp::hex(slice)]),
+                                Err(_) => err(),
+                            };
+                            out.push(Sexp::tag(
+                                "emitted",
+                                vec![Sexp::hex(&sink), Sexp::num(n as u64), value_to_sexp(&value), rd],
+                            ));
+                        }
+                        Err(_) => out.push(Sexp::tag("err", vec![value_to_sexp(&value)])),
+                    }
+                }
+                Sexp::tag("obs", out)
+            })
+        }
+        // (so-read #schema-json #message) -> (ok VALUE #rest) | (err)
+        "so-read" => {
+            use apache_avro::GenericSingleObjectReader;
+            let schema = match parse_schema(&a[0]) {
+                Ok(s) => s,
+                Err(e) => return e,
+            };
+            let msg = a[1].as_hex().unwrap_or(&[]).to_vec();
+            guarded(|| {
+                let r = match GenericSingleObjectReader::builder().schema(schema.clone()).build() {
+                    Ok(r) => r,
+                    Err(_) => return Sexp::tag("reader-err", vec![]),
+                };
+                let mut slice = &msg[..];
+                match r.read_value(&mut slice) {
+                    Ok(v) => ok(vec![value_to_sexp(&v), Sexp::hex(slice)]),
+                    Err(_) => err(),
+                }
+            })
+        }
         "sizes" => Sexp::tag(
             "sizes",
             vec![
